@@ -489,7 +489,13 @@ class Machine(object):
             return Opaque((rv["op"], lab(a)))
         if k == "cast":
             v = self.eval_operand(st, fr, rv["op"])
-            return v  # pointer coercions / int casts keep provenance
+            kind = rv.get("kind") or ""
+            if kind.startswith("PointerCoercion") or kind in ("PtrToPtr", "Transmute", "FnPtrToPtr", "PointerExposeProvenance", "PointerWithExposedProvenance"):
+                return v  # pointer coercions keep provenance
+            # numeric casts (IntToInt, FloatToInt, ...) change the value in general (truncation, sign): keep the provenance but mark it
+            if isinstance(v, Const) and kind == "IntToInt" and v.kind == "int":
+                return v
+            return Opaque(("cast", rv.get("ty"), lab(v)), rv.get("ty"))
         if k == "repeat":
             return Opaque(("repeat", lab(self.eval_operand(st, fr, rv["op"]))))
         raise Unsupported("rvalue %s" % k)
